@@ -108,6 +108,15 @@ func loadRepoWith(overlay map[string][]byte) (*Repo, error) {
 			}
 		}
 	}
+	// in the driver packages a switch without a tag is presented as the if / else-if chain it abbreviates (the case
+	// expressions and bodies are the original nodes, so the type information still applies)
+	for _, p := range r.Pkgs {
+		if isDriverPkg(p) {
+			for _, f := range p.Syntax {
+				desugarTaglessSwitches(f)
+			}
+		}
+	}
 	// a baseline function of a driver package that is gone, while exactly one new function of that package has its name
 	have := map[string]bool{}
 	for fn := range r.Decls {
@@ -225,6 +234,100 @@ func (r *Repo) lookup(key string) *FuncInfo {
 		}
 	}
 	return found
+}
+
+// desugarTaglessSwitches rewrites, in place, every `switch { case a: A; case b, c: B; default: D }` (optionally with an
+// init statement) whose arms neither break nor fall through into `if a { A } else if b || c { B } else { D }`.
+func desugarTaglessSwitches(root ast.Node) {
+	eligible := func(sw *ast.SwitchStmt) bool {
+		if sw.Tag != nil {
+			return false
+		}
+		ok := true
+		for _, c := range sw.Body.List {
+			cc := c.(*ast.CaseClause)
+			var walk func(n ast.Node, depth int)
+			walk = func(n ast.Node, depth int) {
+				ast.Inspect(n, func(m ast.Node) bool {
+					switch x := m.(type) {
+					case *ast.FuncLit, *ast.ForStmt, *ast.RangeStmt, *ast.SwitchStmt, *ast.TypeSwitchStmt, *ast.SelectStmt:
+						if m != n {
+							// a break inside these belongs to them; a labelled break to this switch is not handled
+							return false
+						}
+					case *ast.BranchStmt:
+						if x.Tok == token.BREAK || x.Tok == token.FALLTHROUGH {
+							ok = false
+						}
+					}
+					return true
+				})
+			}
+			for _, st := range cc.Body {
+				walk(st, 0)
+			}
+		}
+		return ok
+	}
+	conv := func(sw *ast.SwitchStmt) ast.Stmt {
+		var def []ast.Stmt
+		hasDef := false
+		var clauses []*ast.CaseClause
+		for _, c := range sw.Body.List {
+			cc := c.(*ast.CaseClause)
+			if cc.List == nil {
+				def, hasDef = cc.Body, true
+				continue
+			}
+			clauses = append(clauses, cc)
+		}
+		var tail ast.Stmt
+		if hasDef {
+			tail = &ast.BlockStmt{Lbrace: sw.Body.Lbrace, List: def, Rbrace: sw.Body.Rbrace}
+		}
+		for i := len(clauses) - 1; i >= 0; i-- {
+			cc := clauses[i]
+			cond := cc.List[0]
+			for _, e := range cc.List[1:] {
+				cond = &ast.BinaryExpr{X: cond, OpPos: e.Pos(), Op: token.LOR, Y: e}
+			}
+			end := cc.End()
+			tail = &ast.IfStmt{If: cc.Pos(), Cond: cond, Body: &ast.BlockStmt{Lbrace: cc.Colon, List: cc.Body, Rbrace: end}, Else: tail}
+		}
+		if tail == nil {
+			tail = &ast.EmptyStmt{Semicolon: sw.Pos()}
+		}
+		if sw.Init != nil {
+			return &ast.BlockStmt{Lbrace: sw.Pos(), List: []ast.Stmt{sw.Init, tail}, Rbrace: sw.End()}
+		}
+		return tail
+	}
+	var fix func(list []ast.Stmt)
+	fix = func(list []ast.Stmt) {
+		for i, st := range list {
+			if sw, ok := st.(*ast.SwitchStmt); ok && eligible(sw) {
+				list[i] = conv(sw)
+			}
+		}
+	}
+	for round := 0; round < 4; round++ {
+		ast.Inspect(root, func(n ast.Node) bool {
+			switch x := n.(type) {
+			case *ast.BlockStmt:
+				fix(x.List)
+			case *ast.CaseClause:
+				fix(x.Body)
+			case *ast.CommClause:
+				fix(x.Body)
+			case *ast.LabeledStmt:
+				if sw, ok := x.Stmt.(*ast.SwitchStmt); ok && eligible(sw) {
+					// a labelled switch may be the target of a labelled break: left alone
+					_ = sw
+				}
+			}
+			return true
+		})
+	}
 }
 
 // visitorLiteral: the single function literal of package derive that is passed to ast.Inspect (directly or through a local
